@@ -40,7 +40,7 @@ func (c Case) history() (play.History, []string) {
 	var params []*[]byte
 	var pf []int16
 	for i, p := range c.Params {
-		if p.Typed != nil && p.Typed.T != "json" {
+		if p.Typed != nil && p.Typed.T != "json" && p.Typed.T != "jsonb" {
 			scanAs[i] = p.Typed.T
 		}
 		switch {
